@@ -529,10 +529,9 @@ void harness(void)
 {''' + PRE + '''
     WIT(size_t, pos);
     __CPROVER_assume(pos < size);               /* ISO: pos is a valid dereferenceable iterator */
-    __CPROVER_assume(j == k + 1);               /* second tracked slot = the source of slot k (value bookkeeping only) */
     ELEM *d0 = v.m_data;
     int old_k = k < size ? ELEM_V(&v.m_data[k]) : 0;
-    int old_j = j < size ? ELEM_V(&v.m_data[j]) : 0;
+    int old_j = (k < size && k + 1 < size) ? ELEM_V(&v.m_data[k + 1]) : 0;      /* pre-state value of the source of slot k */
 
     vector_erase_at(&v, v.m_data + pos);
 
@@ -544,7 +543,7 @@ void harness(void)
     if (k >= pos && k < size - 1) __CPROVER_assert(ELEM_V(&v.m_data[k]) == old_j, "value: erase(pos): elements after pos move down by one");
     CANARY("erase(pos) end reachable");
 }
-''', extra={'solver': 'cadical'}, need_j=True)
+''', extra={'solver': 'cadical'})
 
 # ---------------------------------------------------------------------------------------------- erase(first, last)
 unit('erase_range',
@@ -559,10 +558,9 @@ void harness(void)
     WIT(size_t, fi); WIT(size_t, li);
     __CPROVER_assume(fi <= li && li <= size);
     __CPROVER_assume(!isnull);                   /* nullptr - nullptr is defined in C++ only; see PROPERTY.json */
-    __CPROVER_assume(j == k + (li - fi));        /* second tracked slot = the source of slot k (value bookkeeping only) */
     ELEM *d0 = v.m_data;
     int old_k = k < size ? ELEM_V(&v.m_data[k]) : 0;
-    int old_j = j < size ? ELEM_V(&v.m_data[j]) : 0;
+    int old_j = (k < size && k + (li - fi) < size) ? ELEM_V(&v.m_data[k + (li - fi)]) : 0;      /* pre-state value of the source of slot k */
 
     vector_erase_range(&v, v.m_data + fi, v.m_data + li);
 
@@ -574,7 +572,7 @@ void harness(void)
     if (k >= fi && k < size - (li - fi)) __CPROVER_assert(ELEM_V(&v.m_data[k]) == old_j, "value: erase(first, last): elements from last on move down by last - first");
     CANARY("erase(first, last) end reachable");
 }
-''', extra={'solver': 'cadical'}, need_j=True)
+''', extra={'solver': 'cadical'})
 
 # ---------------------------------------------------------------------------------------------- insert(pos, value)
 INSERT_PRE = '''
@@ -584,7 +582,7 @@ INSERT_PRE = '''
     __CPROVER_assume(k == 0 ? j == 0 : j == k - 1);         /* second tracked slot = the source of slot k (value bookkeeping only) */
     ELEM *d0 = v.m_data;
     int old_k = k < size ? ELEM_V(&v.m_data[k]) : 0;
-    int old_j = j < size ? ELEM_V(&v.m_data[j]) : 0;
+    int old_j = (k > 0 && k - 1 < size) ? ELEM_V(&v.m_data[k - 1]) : 0;     /* pre-state value of the source of slot k (== slot j) */
 '''
 INSERT_POST = '''
     c02_vec_check(&v);
@@ -601,7 +599,7 @@ SPLIT_INS = dict(SPLIT, params={'REALLOC': [0], 'BYINDEX': [0]}, params_thorough
 SPLIT_NOTE = ['quick tier: the case size() < capacity() (no reallocation); thorough tier: also size() == capacity() (solver time > 60 s)']
 unit('insert_value',
      ['igris::vector::insert(const_iterator, const T&)', 'igris::vector::insert(int, const T&)', 'std::move_backward stub'],
-     ['NOREALLOC', 'AD', 'CB'],
+     ['NOREALLOC', 'AD', 'CB', 'TMPCHK'],
      'insert(pos, x), begin() <= pos <= end(), x outside the vector, from an arbitrary VEC state: size()+1, elements before pos unchanged, element pos == x, '
      'elements from pos on moved up by one, iterator to the new element returned; lifetime - the new last slot is move-constructed (or constructed from the '
      'copy of x), only live elements are assigned to / moved from, the temporary copy of x is constructed in raw storage and destroyed exactly once, nothing '
@@ -622,7 +620,7 @@ void harness(void)
 
 unit('insert_alias',
      ['igris::vector::insert(const_iterator, const T&) with an element of the vector as argument'],
-     ['NOREALLOC', 'AD', 'CB'],
+     ['NOREALLOC', 'AD', 'CB', 'TMPCHK'],
      'insert(pos, v[a]) (std::vector supports an argument that is an element of the vector), any a, with or without reallocation: the inserted element '
      'equals the value v[a] had before the call; the argument is copied while it is a live element of a live block (the shifted elements are covered by insert_value)',
      '''
@@ -667,7 +665,7 @@ void harness(void)
 unit('insert_range',
      ['igris::vector::insert(iterator, const_iterator, const_iterator)', 'igris::vector::insert(const_iterator, const T&)'],
      ['NOREALLOC', 'AD', 'CB'],
-     'insert(pos, first, last) with a range of at most 2 live elements outside the vector (the loop over insert(pos, value) is unwound; insert(pos, value) '
+     'insert(pos, first, last) with a range of at most 1 live element outside the vector (the loop over insert(pos, value) is unwound; insert(pos, value) '
      'itself is proved for an arbitrary VEC state by insert_value): size() grows by n, elements before pos unchanged, [pos, pos+n) are copies of [first, last) '
      'in order, the old elements from pos on move up by n; VEC holds, the source range is untouched, one reserve at most',
      '''
@@ -675,16 +673,14 @@ void harness(void)
 {''' + PRE + '''
     WIT(size_t, pos); WIT(size_t, m);
     WIT_ARR(int, scontent, 2);
-    __CPROVER_assume(pos <= size && m <= 2 && size + 2 <= C02_MAXN);
+    __CPROVER_assume(pos <= size && m <= MAXM && size + 2 <= C02_MAXN);       /* params: MAXM = 1 */
     __CPROVER_assume(REALLOC ? size + m > cap : size + m <= cap);   /* case split (params): with / without reallocation */
     ELEM src[2];
     for (int i = 0; i < 2; i++) ELEM_SET(&src[i], ELEM_LIVE, scontent[i] & C02_VMAX);
     __CPROVER_assume(k < m ? j == 0 : j == k - m);      /* second tracked slot = the source of slot k (value bookkeeping only) */
     ELEM *d0 = v.m_data;
     int old_k = k < size ? ELEM_V(&v.m_data[k]) : 0;
-    int old_j = j < size ? ELEM_V(&v.m_data[j]) : 0;
-    int old_j1 = (m == 2 && j + 1 < size) ? ELEM_V(&v.m_data[j + 1]) : 0;   /* pre-state read of the slot in between (first of two shifts) */
-    (void)old_j1;
+    int old_j = (k >= m && k - m < size) ? ELEM_V(&v.m_data[k - m]) : 0;   /* pre-state value of the source of slot k (== slot j) */
 
     ELEM *r = vector_insert_range(&v, v.m_data + pos, src, src + m);
 
@@ -701,6 +697,7 @@ void harness(void)
     __CPROVER_assert(g_alloc_calls <= 1, "value: insert(pos, first, last): at most one allocation");
     CANARY("insert(pos, first, last) end reachable");
 }
-''', extra=dict(SPLIT, kind='bounded', bound='source range of at most 2 elements (the loop over insert(pos, value) unwound 3 times with unwinding assertion; '
+''', extra=dict(SPLIT, kind='bounded', bound='source range of at most 1 element (the loop over insert(pos, value) unwound twice with unwinding assertion; '
                                                   'blocks are of symbolic size, the loops of changeBuffer / array_destructor keep their loop contracts)',
-               unwindset=['vector_insert_range.0:3']), assumptions=SPLIT_NOTE, need_j=True)
+               unwindset=['vector_insert_range.0:2'], params={'REALLOC': [0], 'MAXM': [1]}, params_thorough={'REALLOC': [0, 1], 'MAXM': [1]}),
+     assumptions=SPLIT_NOTE, need_j=True)
